@@ -13,7 +13,8 @@ rsync -a --delete --exclude target --exclude .git --exclude .verif-mc --exclude 
 if ! (cd "$W/repo" && patch -p1 -s < "$PATCH"); then echo "EQUIV $(basename "$PATCH") patch-does-not-apply"; exit 3; fi
 out=$(cd "$W/repo" && cargo test --workspace --no-fail-fast --offline --lib --tests 2>&1); rc_suite=$?
 bad=""
-for i in 01 02 03 04 05 06 07 08 09 10 11 12 13 14 15 16 17 18 19 20; do
+# VERIF_ONLY="05 09 17" restricts the run to those checks (after a change to a few drivers)
+for i in ${VERIF_ONLY:-01 02 03 04 05 06 07 08 09 10 11 12 13 14 15 16 17 18 19 20}; do
     o=$(cd "$HERE" && VERIF_REPO="$W/repo" ./check C$i "$TIER" 2>&1); rc=$?
     if [ $rc -ne 0 ]; then bad="$bad C$i(exit $rc)"; echo "$o" | grep -E '^(VIOLATION|  violation|ENGINE)' | head -n 3 | cut -c1-300; fi
     echo "$o" | grep -E '^CAP-HIT' | cut -c1-200
